@@ -26,6 +26,15 @@ def run(ck):
     ck.rule("R2", "SymbolicState.merge keeps a binding only when both states hold it with equal values", floor=1)
     ck.rule("R3", "only identifiers are substituted; sources are rewritten before the block is executed", floor=1)
     ck.rule("R4", "a second state for a block is merged with the first", floor=1)
+    ck.rule("R6", "is_expr_cst examines the identifiers inside memory pointers too (get_r(mem_read=True))", floor=1)
+    m = ck.repo.mod(CP)
+    _f6 = m.func("is_expr_cst")
+    _ep6 = _f6.args.args[1].arg
+    _calls6 = [c for c in walk_body(_f6) if isinstance(c, ast.Call) and isinstance(c.func, ast.Attribute) and c.func.attr == "get_r" and norm(c.func.value) == _ep6]
+    ck.ob("R6", "is_expr_cst:reads-pointer-identifiers", bool(_calls6) and all(any(k.arg == "mem_read" and isinstance(k.value, ast.Constant) and k.value.value is True
+                                                                                  for k in c.keywords) for c in _calls6), m.where(_f6),
+          "is_expr_cst collects the leaves of the expression without mem_read=True: the identifiers a memory pointer is built from are not examined, "
+          "so `@32[ESI]` with a non-initial ESI counts as a constant expression and is propagated past a redefinition of ESI")
     ck.rule("R5", "the end-of-block state is handed to every possible destination that is not a memory cell", floor=1)
     _successor_rules(ck)
 
